@@ -378,8 +378,8 @@ def adpcm (n : Nat) (tab inp : Bytes) : Bytes :=
       let b := nth inp (j / 2)
       (nth tab (if j % 2 = 0 then b.toNat % 16 else b.toNat / 16)).toNat).sum % 256)
 
-/-- the conversions in the defined order -/
-def pcm (flags : Nat) (is16 stereo : Bool) (len : Nat) (raw : Bytes) : Bytes :=
+/-- the per-sample conversions in the defined order (everything before the interleave) -/
+def pre (flags : Nat) (is16 stereo : Bool) (len : Nat) (raw : Bytes) : Bytes :=
   let channels := if stereo then 2 else 1
   let cnt := len * channels
   let d := if fl flags SAMPLE_FLAG_7BIT then shl1 cnt raw else raw
@@ -389,6 +389,12 @@ def pcm (flags : Nat) (is16 stereo : Bool) (len : Nat) (raw : Bytes) : Bytes :=
            else d
   let d := if fl flags SAMPLE_FLAG_UNS then unsign cnt is16 d else d
   let d := if fl flags SAMPLE_FLAG_VIDC then vidc cnt d else d
+  d
+
+/-- the conversions in the defined order:
+    `interleave? ∘ vidc? ∘ unsign? ∘ (delta | bytedelta)? ∘ bswap? ∘ shl1?` -/
+def pcm (flags : Nat) (is16 stereo : Bool) (len : Nat) (raw : Bytes) : Bytes :=
+  let d := pre flags is16 stereo len raw
   if stereo && !fl flags SAMPLE_FLAG_INTERLEAVED then interleave len is16 d else d
 
 /-- number of PCM bytes actually present for a sample declared with `need` bytes when `remaining`
